@@ -411,6 +411,29 @@ pub mod tcp {
     }
 }
 
+// ---- hash order -------------------------------------------------------------
+thread_local! { static HASH_SEED: Cell<u64> = const { Cell::new(0) }; }
+/// Seed of every `SeededHashMap` created afterwards on this thread (call at the start of a simulated run).
+pub fn set_hash_seed(seed: u64) { HASH_SEED.with(|c| c.set(seed)); }
+/// `BuildHasher` whose iteration order is a pure function of (run seed, keys, insertion history) instead of
+/// the per-process random keys of `RandomState`: code that walks a map and takes the first match behaves
+/// the same in every process for one seed, and differently for different seeds.
+#[derive(Clone, Debug)]
+pub struct SeededState(u64);
+impl Default for SeededState {
+    fn default() -> Self { Self(HASH_SEED.with(|c| c.get())) }
+}
+impl std::hash::BuildHasher for SeededState {
+    type Hasher = std::collections::hash_map::DefaultHasher;
+    fn build_hasher(&self) -> Self::Hasher {
+        use std::hash::Hasher;
+        let mut h = std::collections::hash_map::DefaultHasher::new();
+        h.write_u64(self.0);
+        h
+    }
+}
+pub type SeededHashMap<K, V> = std::collections::HashMap<K, V, SeededState>;
+
 // ---- wall clock as SystemTime / environment ------------------------------
 thread_local! { static VIRT_WALL: Cell<bool> = const { Cell::new(false) }; static LOCAL_IP: Cell<Option<std::net::IpAddr>> = const { Cell::new(None) }; }
 pub fn set_virtual_wall_clock(on: bool) { VIRT_WALL.with(|c| c.set(on)); }
